@@ -31,6 +31,9 @@ ASSUMPTIONS = [
 ]
 
 
+VIAS = ("tcp", "usb_bytes", "usb_bytearray", "yd", "actisense")
+
+
 def render(v):
     if isinstance(v, (bytes, bytearray)):
         return bytes(v).hex()
@@ -62,12 +65,30 @@ class Checker:
         self.mapped.decode_tcp(traffic.render({"pgn": 60928, "src": 1, "dest": 255, "data": claim.to_bytes(8, "little")}))
         self.enc = NMEA2000Encoder()
 
-    def check(self, d, payload, nbytes, with_identity):
+    def deliver(self, dec, d, payload, nbytes, via):
+        """The entry points and argument container types the library's own clients use."""
+        from .. import wire
+        data = payload.to_bytes(nbytes, "little")
+        if via == "basic":
+            return dec.decode_basic_string(gen.basic_string(d.pgn, payload, nbytes, src=1), already_combined=True)
+        dest = 255
+        i = wire.ident(d.pgn, 1, dest, 3)
+        if via == "tcp":
+            return dec.decode_tcp(wire.ebyte(i, data))
+        if via == "usb_bytes":
+            return dec.decode_usb(wire.usb(i, data))
+        if via == "usb_bytearray":
+            return dec.decode_usb(bytearray(wire.usb(i, data)))       # the serial client hands over a slice of its bytearray buffer
+        if via == "yd":
+            return dec.decode_yacht_devices_string(wire.yd(i, data))
+        return dec.decode_actisense_string(wire.actisense(d.pgn, 1, dest, 3, data))
+
+    def check(self, d, payload, nbytes, with_identity, via="basic"):
         ctx = self.ctx
         dec = self.mapped if with_identity else self.plain
-        case = {"definition": d.key, "payload_hex": payload.to_bytes(nbytes, "little").hex(), "with_identity": with_identity}
+        case = {"definition": d.key, "payload_hex": payload.to_bytes(nbytes, "little").hex(), "with_identity": with_identity, "via": via}
         try:
-            m = dec.decode_basic_string(gen.basic_string(d.pgn, payload, nbytes, src=1), already_combined=True)
+            m = self.deliver(dec, d, payload, nbytes, via)
         except Exception:
             ctx.klass("rejected")
             return [], False
@@ -81,7 +102,7 @@ class Checker:
             text = m.to_json()
         except Exception as e:
             ftypes = sorted({type(f.value).__name__ for f in m.fields if not isinstance(f.value, (int, float, str, type(None)))})
-            return [(f"C15|to_json-error|{type(e).__name__}|{','.join(ftypes) or 'native'}", f"to_json failed: {type(e).__name__}: {e}", case)], not native
+            return [(f"C15|to_json-error|{type(e).__name__}|{','.join(ftypes) or 'native'}|{via}", f"to_json failed (message delivered via {via}): {type(e).__name__}: {e}", case)], not native
         try:
             parsed = strict_loads(text)
         except Exception as e:
@@ -134,6 +155,13 @@ def _work(ctx: Ctx, item):
             res, nontrivial = ck.check(d, payload, nbytes, ident)
             if nontrivial:
                 ctx.nt((d.key, payload, ident))
+            if not d.fast and nbytes <= 8 and not res:
+                # the same frame through the entry points (and argument types) the gateway clients use
+                via = VIAS[(payload + nbytes + ident) % len(VIAS)]
+                ctx.count()
+                ctx.klass("via:" + via)
+                r2, _ = ck.check(d, payload, nbytes, ident, via=via)
+                res += [(b if b.endswith(via) else b + "|" + via, w, c) for b, w, c in r2]
             return res
 
         ctx.hyp(one, gen.payloads(d, mode="any", extra_bytes=d.fast), st.booleans(), max_examples=n, name="any")
@@ -238,5 +266,6 @@ def replay(ctx: Ctx, case):
     ck = Checker(ctx)
     d = canboat.db().by_key[case["definition"]]
     data = bytes.fromhex(case["payload_hex"])
-    res, _ = ck.check(d, int.from_bytes(data, "little"), len(data), case.get("with_identity", False))
-    return res
+    via = case.get("via", "basic")
+    res, _ = ck.check(d, int.from_bytes(data, "little"), len(data), case.get("with_identity", False), via=via)
+    return res if via == "basic" else [(b if b.endswith(via) else b + "|" + via, w, c) for b, w, c in res]
